@@ -65,6 +65,11 @@ class C18(props.BaseProp):
             spec, nodes, edges = cg.gen_graph(r, nn, directed, multi, wmode, dense=(nn <= 5))
             if weighted and r.below(5) == 0:
                 edges = [(u, v, (0 if (w is not None and r.below(4) == 0) else w)) for (u, v, w) in edges]
+            if not weighted and i % 4 == 1:
+                # an UNWEIGHTED request on a graph that stores weights, some of them exactly 0.0: every stored edge
+                # counts 1 in the 0/1 adjacency matrix, whatever its weight
+                rz = gv.SplitMix(seed * 7919 + 18000 + i)
+                edges = [(u, v, (0 if rz.below(3) == 0 else (w if w is not None else 1 + rz.below(3)))) for (u, v, w) in edges]
             mi = r.pick([1, 2, 5, 100, 100, 100, None])
             te = r.pick([2, 6, 6, 12, None])
             c = {"id": "e%d" % i, "spec": spec, "nodes": nodes, "edges": edges,
@@ -77,6 +82,23 @@ class C18(props.BaseProp):
                     c["readd"] = [nds_[(5 * i + k) % len(nds_)] for k in range(1 + i % 2)]
                     c["nomodel"] = True
             cases.append(c)
+            if i % 150 == 50:
+                # directed graphs of 21-30 nodes with unequal in- and out-degrees (oracle only): above the size at which
+                # other algorithms of the crate switch to a rayon arm; left and right dominant eigenvectors differ
+                r3 = gv.SplitMix(seed * 7919 + 18500 + i)
+                nd = 21 + r3.below(10)
+                nm = r3.shuffle(list(range(nd)))
+                ed = [(nm[j], nm[(j + 1) % nd], 1 + r3.below(3)) for j in range(nd)]
+                hub = nm[r3.below(nd)]
+                ed += [(hub, x, 1 + r3.below(3)) for x in nm if x != hub and r3.below(3) == 0]
+                seen_d, ee = set(), []
+                for e in ed:
+                    if (e[0], e[1]) not in seen_d:
+                        seen_d.add((e[0], e[1]))
+                        ee.append(e)
+                cases.append({"id": "ed%d" % i, "spec": (1, 0, 1, 2, 0, 1), "nodes": nm, "edges": ee,
+                              "weighted": r3.below(2) == 1, "max_iter": r3.pick([1000, 1000, 100]), "tolexp": 6,
+                              "nomodel": True})
             if i % 450 == 100:
                 # hub-dominated graphs of 250-400 nodes at the loosest tolerance (oracle only): the stopping test
                 # n * tol is then met in the VERY FIRST pass, where the previous iterate is still the un-normalised
@@ -233,7 +255,7 @@ class C18(props.BaseProp):
 
     def stats_key(self, c, o):
         n = len(cg.effective(c)[1])
-        return ["dir%d_multi%d" % (c["spec"][0], c["spec"][1]), "n_%s" % (n if n < 100 else "250-400"), "weighted%d" % c["weighted"],
+        return ["dir%d_multi%d" % (c["spec"][0], c["spec"][1]), "n_%s" % (n if n < 20 else ("21-30" if n < 100 else "250-400")), "weighted%d" % c["weighted"],
                 "max_iter_%s" % c["max_iter"], "tol_1e-%s" % c["tolexp"],
                 "outcome_%s" % "_".join(str(ob[1][0][0]) for ob in o if ob[0] == 1)]
 
